@@ -1949,6 +1949,50 @@ impl Db {
 	}
 }
 
+/// Verification hooks (compiled only with `--cfg pdb_verif`): read-only.
+#[cfg(pdb_verif)]
+impl Db {
+	/// `iter_column_index_while` (the walk `migrate` relies on): hashed key, reference count,
+	/// value of every index entry reported.
+	pub fn verif_iter_index(
+		&self,
+		col: ColId,
+		mut f: impl FnMut(&Key, u32, &[u8]) -> bool,
+	) -> Result<()> {
+		self.iter_column_index_while(col, |IterState { key, rc, value, .. }| f(&key, rc, &value))
+	}
+
+	/// The hashed key of `key` in hash column `col`.
+	pub fn verif_hash_key(&self, col: ColId, key: &[u8]) -> Option<Key> {
+		match &self.inner.columns[col as usize] {
+			Column::Hash(column) => Some(column.hash_key(key)),
+			Column::Tree(_) => None,
+		}
+	}
+
+	/// (index bits of the current index table, index bits of queued older index tables).
+	pub fn verif_index_tables(&self, col: ColId) -> Option<(u8, Vec<u8>)> {
+		match &self.inner.columns[col as usize] {
+			Column::Hash(column) => Some(column.verif_index_tables()),
+			Column::Tree(_) => None,
+		}
+	}
+
+	/// Raw entries (chunk, entry, stored key tail) of the current (`which` = 0) or the n-th
+	/// queued older index table of hash column `col`, with that table's index bits.
+	#[allow(clippy::type_complexity)]
+	pub fn verif_index_entries(
+		&self,
+		col: ColId,
+		which: usize,
+	) -> Result<(u8, Vec<(u64, u64, Option<[u8; 26]>)>)> {
+		match &self.inner.columns[col as usize] {
+			Column::Hash(column) => column.verif_index_entries(&self.inner.log, which),
+			Column::Tree(_) => Ok((0, Vec::new())),
+		}
+	}
+}
+
 impl Drop for Db {
 	fn drop(&mut self) {
 		self.drop_inner()
